@@ -802,35 +802,36 @@ class WriteTool(BaseTool):
             absolute = path.absolute()
 
             # Resolve to canonical path (follows all symlinks)
-            resolved = absolute.resolve(strict=False)
+            absolute.resolve(strict=False)  # raises on symlink loops and embedded NULs
 
             # If paths differ after normalization, symlinks were involved
             # Now check each component to see if it's a user-controlled symlink
-            if absolute != resolved:
-                # Walk the path to find which component is the symlink
-                current = Path("/")
-                for part in absolute.parts[1:]:  # Skip root
-                    current = current / part
-                    if current.exists() and current.is_symlink():
-                        # Found a symlink - check if it's a system symlink
-                        # System symlinks are typically in the first 2-3 components
-                        # and resolve to /private/* or other system paths
-                        symlink_depth = len(Path(current).parts)
-                        resolved_target = current.resolve()
+            # Walk every component even when resolve() returned the path unchanged: a link that
+            # leads back to itself through a missing directory resolves (non-strictly) to itself.
+            # Walk the path to find which component is the symlink
+            current = Path("/")
+            for part in absolute.parts[1:]:  # Skip root
+                current = current / part
+                if current.is_symlink():
+                    # Found a symlink - check if it's a system symlink
+                    # System symlinks are typically in the first 2-3 components
+                    # and resolve to /private/* or other system paths
+                    symlink_depth = len(Path(current).parts)
+                    resolved_target = current.resolve()
 
-                        # Allow common system symlinks:
-                        # - /var -> /private/var (depth 1)
-                        # - /tmp -> /private/tmp (depth 1)
-                        # - /etc -> /private/etc (depth 1)
-                        if symlink_depth <= 2 and str(resolved_target).startswith("/private/"):
-                            # Likely system symlink, allow it
-                            continue
+                    # Allow common system symlinks:
+                    # - /var -> /private/var (depth 1)
+                    # - /tmp -> /private/tmp (depth 1)
+                    # - /etc -> /private/etc (depth 1)
+                    if symlink_depth <= 2 and str(resolved_target).startswith("/private/"):
+                        # Likely system symlink, allow it
+                        continue
 
-                        # User-controlled symlink - reject
-                        return (
-                            False,
-                            f"Symlinks in path are not allowed for security reasons: '{target_path}'. Use corrections_only=true to preview normalization without writing.",
-                        )
+                    # User-controlled symlink - reject
+                    return (
+                        False,
+                        f"Symlinks in path are not allowed for security reasons: '{target_path}'. Use corrections_only=true to preview normalization without writing.",
+                    )
 
         except Exception as e:
             return False, f"Path resolution failed: {str(e)}"
